@@ -153,7 +153,11 @@ func (p Prefix) Match(key string, match *PrefixMatch) (ok bool) {
 	}
 
 	if match != nil {
-		*match = PrefixMatch{Key: key, CommonPrefix: out != key, MatchedPart: out}
+		// A key that continues past the prefix up to a delimiter rolls up into a
+		// common prefix, also when the delimiter is its last character ("dir/"
+		// under the empty prefix): listing it under Contents as well would report
+		// it twice and make its name ambiguous as a pagination marker.
+		*match = PrefixMatch{Key: key, CommonPrefix: appendDelim || out != key, MatchedPart: out}
 	}
 	return true
 }
